@@ -16,10 +16,12 @@ from concurrent.futures import ThreadPoolExecutor
 
 VERIF = os.path.dirname(os.path.dirname(os.path.abspath(__file__)))
 COQ = os.path.join(VERIF, "coq")
-HARNESS = os.path.join(VERIF, "harness")
+# (the three overrides exist only for tools/mutrun.sh, which points the checks at a scratch
+#  copy of the harness built against a mutated worktree instead of /repo)
+HARNESS = os.environ.get("VERIF_HARNESS_DIR", os.path.join(VERIF, "harness"))
 CACHE = os.path.join(VERIF, ".cache")
-TARGET = os.path.join(CACHE, "target")
-EVID = os.path.join(VERIF, "evidence")
+TARGET = os.environ.get("VERIF_TARGET_DIR", os.path.join(CACHE, "target"))
+EVID = os.environ.get("VERIF_EVID_DIR", os.path.join(VERIF, "evidence"))
 REPLAY = os.path.join(EVID, "replay")
 
 ALLOWED_AXIOMS = {
@@ -64,7 +66,7 @@ def seed():
 
 
 def workdir(prop):
-    d = os.path.join(CACHE, "work", prop)
+    d = os.path.join(os.environ.get("VERIF_WORK_DIR", os.path.join(CACHE, "work")), prop)
     os.makedirs(d, exist_ok=True)
     return d
 
